@@ -1,9 +1,195 @@
 import UvModel.DriverUtil
-/-! line-protocol driver modes for C01 (stub: no modes yet) -/
+import UvModel.LoopRun
+/-! line-protocol driver for the loop model (C01, C02, C03): mode `loop`.
+    Input: the program given to harness/sim_loop.c (`config`, `on`, `op` lines) plus the
+    harness's `env poll` lines (the environment's answers, consumed in order) and a final `go`.
+    Output: every `op … -> ret`, `cb … endcb`, `env poll`, `obs` line the implementation must print. -/
 namespace Drivers.C01
-open UvModel.DriverUtil
+open UvModel UvModel.DriverUtil UvModel.Loop UvModel.HandleKernels
 
-/-- (mode name, action).  `uvdriver <mode>` runs the action (normally `runLines init step`). -/
-def modes : List (String × IO Unit) := []
+def kindOfName : String → Option Kind
+  | "timer" => some .timer | "idle" => some .idle | "prepare" => some .prepare | "check" => some .check
+  | "async" => some .async | "poll" => some .poll | "tcp" => some .tcp | "udp" => some .udp
+  | "pipe" => some .pipe | "signal" => some .signal | "fs_event" => some .fsEvent | _ => none
+
+def kindName : Kind → String
+  | .timer => "timer" | .idle => "idle" | .prepare => "prepare" | .check => "check" | .async => "async"
+  | .poll => "poll" | .tcp => "tcp" | .udp => "udp" | .pipe => "pipe" | .signal => "signal" | .fsEvent => "fs_event"
+
+/-- `h7` → 9 (ids 0,1 are the loop's internal handles) -/
+def hId (w : String) : Option Nat :=
+  if w.startsWith "h" then ((w.drop 1).toNat?).map (· + 2) else none
+def rId (w : String) : Option Nat :=
+  if w.startsWith "r" then (w.drop 1).toNat? else none
+
+def parseOp (ws : List String) : Op :=
+  let bad := Op.bad (" ".intercalate ws)
+  match ws with
+  | ["init", k, h] => match kindOfName k, hId h with | some k, some h => .init k h | _, _ => bad
+  | ["start", h, a, b] => match hId h, a.toNat?, b.toNat? with | some h, some a, some b => .start h a b | _, _, _ => bad
+  | ["stop", h] => match hId h with | some h => .stop h | none => bad
+  | ["again", h] => match hId h with | some h => .again h | none => bad
+  | ["set_repeat", h, v] => match hId h, v.toNat? with | some h, some v => .setRepeat h v | _, _ => bad
+  | ["ref", h] => match hId h with | some h => .ref h | none => bad
+  | ["unref", h] => match hId h with | some h => .unref h | none => bad
+  | ["close", h] => match hId h with | some h => .close h | none => bad
+  | ["async_send", h] => match hId h with | some h => .asyncSend h | none => bad
+  | ["bind", h] => match hId h with | some h => .bind h | none => bad
+  | ["udp_send", r, h] => match rId r, hId h with | some r, some h => .udpSend r h | _, _ => bad
+  | ["work", r] => match rId r with | some r => .work r | none => bad
+  | ["cancel", r] => match rId r with | some r => .cancel r | none => bad
+  | ["stop_loop"] => .stopLoop
+  | ["update_time"] => .updateTime
+  | ["advance", n] => match n.toNat? with | some n => .advance n | none => bad
+  | ["alive"] => .getAlive
+  | ["backend_timeout"] => .getBackendTimeout
+  | ["now"] => .getNow
+  | ["is_active", h] => match hId h with | some h => .isActive h | none => bad
+  | ["has_ref", h] => match hId h with | some h => .hasRef h | none => bad
+  | ["is_closing", h] => match hId h with | some h => .isClosing h | none => bad
+  | ["due_in", h] => match hId h with | some h => .dueIn h | none => bad
+  | ["make_readable", h] => match hId h with | some h => .env "make_readable" h | none => bad
+  | ["drain", h] => match hId h with | some h => .env "drain" h | none => bad
+  | _ => bad
+
+def hn (id : Nat) : String := s!"h{id - 2}"
+
+/-- canonical program text of an op (`start` always carries two numeric arguments) -/
+def opText : Op → String
+  | .init k id => s!"init {kindName k} {hn id}"
+  | .start h a b => s!"start {hn h} {a} {b}"
+  | .stop h => s!"stop {hn h}"
+  | .again h => s!"again {hn h}"
+  | .setRepeat h v => s!"set_repeat {hn h} {v}"
+  | .ref h => s!"ref {hn h}"
+  | .unref h => s!"unref {hn h}"
+  | .close h => s!"close {hn h}"
+  | .asyncSend h => s!"async_send {hn h}"
+  | .bind h => s!"bind {hn h}"
+  | .udpSend r h => s!"udp_send r{r} {hn h}"
+  | .work r => s!"work r{r}"
+  | .cancel r => s!"cancel r{r}"
+  | .stopLoop => "stop_loop"
+  | .updateTime => "update_time"
+  | .advance n => s!"advance {n}"
+  | .getAlive => "alive"
+  | .getBackendTimeout => "backend_timeout"
+  | .getNow => "now"
+  | .isActive h => s!"is_active {hn h}"
+  | .hasRef h => s!"has_ref {hn h}"
+  | .isClosing h => s!"is_closing {hn h}"
+  | .dueIn h => s!"due_in {hn h}"
+  | .env n h => s!"{n} {hn h}"
+  | .bad t => t
+
+def modeName : Mode → String
+  | .default => "DEFAULT" | .once => "ONCE" | .nowait => "NOWAIT"
+def modeOf : String → Option Mode
+  | "DEFAULT" => some .default | "ONCE" => some .once | "NOWAIT" => some .nowait | _ => none
+
+def ownerName : Owner → String
+  | .async => "async" | .h id => hn id | .signal => "signal" | .other => "other"
+def ownerOf (w : String) : Owner :=
+  if w == "async" then .async else if w == "signal" then .signal
+  else match hId w with | some h => .h h | none => .other
+
+def b01 (b : Bool) : String := if b then "1" else "0"
+def flagStr (a r c : Bool) : String := (if a then "A" else "-") ++ (if r then "R" else "-") ++ (if c then "C" else "-")
+
+def renderObs (o : Obs) : String :=
+  s!"obs alive={b01 o.alive} ah={o.ah} ar={o.ar} stop={b01 o.stop} nh={o.nh} now={o.now}" ++
+  String.join (o.hs.map fun (id, a, r, c) => s!" {hn id}={flagStr a r c}")
+
+def render : Event → List String
+  | .op o (some r) => [s!"op {opText o} -> ret {r}"]
+  | .op o none => [s!"op {opText o} -> bad-op"]
+  | .cb _ k id a b =>
+    match k with
+    | .timer => [s!"cb timer {hn id}"] | .idle => [s!"cb idle {hn id}"] | .prepare => [s!"cb prepare {hn id}"]
+    | .check => [s!"cb check {hn id}"] | .async => [s!"cb async {hn id}"]
+    | .poll => [s!"cb poll {hn id} {a} {b}"]
+    | .close => [s!"cb close {hn id} {flagStr (a % 2 == 1) (a / 2 % 2 == 1) (a / 4 % 2 == 1)}"]
+    | .work => [s!"cb work r{id} {a}"]
+    | .udpSend => [s!"cb udp_send r{id} {a}"]
+  | .endcb => ["endcb"]
+  | .poll t r =>
+    let head := s!"env poll timeout={t} clock={r.clock} done={r.done} ->"
+    if r.eintr then [head ++ " EINTR"] else if r.deadlock then [head ++ " DEADLOCK"]
+    else [head ++ String.join (r.batch.map fun (o, e) => s!" {ownerName o}:{e}")]
+  | .obs o => [renderObs o]
+  | .runBegin m => [s!"run {modeName m}"]
+  | .runEnd m r => [s!"op run {modeName m} -> ret {b01 r}"]
+  | .iterBegin => []
+  | .loopClose rc => if rc == 0 then ["op loop_close -> ret 0", "obs closed fds=restored"] else [s!"op loop_close -> ret {rc}"]
+
+structure Prog where
+  metrics : Bool := false
+  clock0 : Nat := 1000
+  cblimit : Nat := 1000000
+  table : List (CbKey × Nat × List Op) := []
+  main : List MainOp := []
+  oracle : List PollRes := []
+  bad : List String := []
+
+def splitOn (ws : List String) (sep : String) : List (List String) :=
+  let (acc, cur) := ws.foldl (fun (acc, cur) w => if w == sep then (acc ++ [cur], []) else (acc, cur ++ [w])) ([], [])
+  (acc ++ [cur]).filter (· ≠ [])
+
+def keyOf (w : String) : Option CbKey :=
+  if w.startsWith "h" then ((w.drop 1).toNat?).map (fun n => CbKey.h (n + 2))
+  else if w.startsWith "c" then ((w.drop 1).toNat?).map (fun n => CbKey.c (n + 2))
+  else if w.startsWith "r" then ((w.drop 1).toNat?).map CbKey.r
+  else none
+
+def kv (w : String) (k : String) : Option String :=
+  if w.startsWith (k ++ "=") then some (w.drop (k.length + 1)).toString else none
+
+def parsePoll (ws : List String) : PollRes :=
+  -- ws = ["timeout=..", "clock=..", "done=..", "->", ...]
+  let clock := (ws.findSome? (kv · "clock")).bind (·.toNat?) |>.getD 0
+  let done := (ws.findSome? (kv · "done")).bind (·.toNat?) |>.getD 0
+  let after := (ws.dropWhile (· ≠ "->")).drop 1
+  match after with
+  | ["EINTR"] => { eintr := true, clock := clock, done := done }
+  | ["DEADLOCK"] => { deadlock := true, clock := clock, done := done }
+  | evs => { clock := clock, done := done,
+             batch := evs.map fun w => match w.splitOn ":" with
+               | [o, e] => (ownerOf o, e.toNat?.getD 0)
+               | _ => (.other, 0) }
+
+def addLine (p : Prog) (ws : List String) : Prog :=
+  match ws with
+  | ["config", "metrics", v] => { p with metrics := v != "0" }
+  | ["config", "clock0", v] => { p with clock0 := nat! v }
+  | ["config", "cblimit", v] => { p with cblimit := nat! v }
+  | "config" :: "eintr" :: _ => p
+  | "on" :: key :: occ :: rest =>
+    match keyOf key with
+    | some k => { p with table := p.table ++ [(k, nat! occ, (splitOn rest ";").map parseOp)] }
+    | none => { p with bad := p.bad ++ [" ".intercalate ws] }
+  | ["op", "run", m] =>
+    match modeOf m with
+    | some m => { p with main := p.main ++ [.run m] }
+    | none => { p with main := p.main ++ [.op (.bad s!"run {m}")] }
+  | ["op", "loop_close"] => { p with main := p.main ++ [.loopClose] }
+  | "op" :: rest => { p with main := p.main ++ [.op (parseOp rest)] }
+  | "env" :: "poll" :: rest => { p with oracle := p.oracle ++ [parsePoll rest] }
+  | [] => p
+  | _ => { p with bad := p.bad ++ [" ".intercalate ws] }
+
+def scriptOf (p : Prog) : Script := fun key occ g =>
+  ((p.table.find? (fun e => e.1 == key && e.2.1 == occ)).map (·.2.2)).getD [] ++
+  (if g ≥ p.cblimit then [Op.stopLoop] else [])
+
+def runProg (p : Prog) : List String :=
+  let s := emitObs (initLoop p.clock0 p.metrics p.oracle)
+  let s := runMain (scriptOf p) 1000000 s p.main
+  p.bad.map (fun l => s!"bad-line {l}") ++ (s.trace.reverse.flatMap render)
+
+def loopStep (p : Prog) : List String → Prog × List String
+  | ["go"] => ({}, runProg p)
+  | ws => (addLine p ws, [])
+
+def modes : List (String × IO Unit) := [("loop", runLines ({} : Prog) loopStep)]
 
 end Drivers.C01
